@@ -41,7 +41,7 @@ class SubstVar_apply(Contract):
         return {}
 
 
-class SyntaxCheck_check(Contract):
+class C07_SyntaxCheck_check(Contract):
     target = 'fpy2.analysis.syntax_check:SyntaxCheck.check'
     params = {'func': 'FuncDefM', 'ignore_unknown': 'bool'}
     returns = 'None'
